@@ -445,15 +445,23 @@ func genC38(rt *rapid.T) c38Case {
 
 type countingListener struct {
 	net.Listener
-	n *atomic.Int64
+	p *probeServer
 }
 
 func (l countingListener) Accept() (net.Conn, error) {
 	c, err := l.Listener.Accept()
 	if err == nil {
-		l.n.Add(1)
+		l.p.accepts.Add(1)
+		l.p.logAccept(c)
 	}
 	return c, err
+}
+
+// acceptRec is one accepted connection: local is the destination address the
+// peer connected to, remote the peer's address.
+type acceptRec struct {
+	local, remote string
+	marker        bool
 }
 
 type probeServer struct {
@@ -465,6 +473,57 @@ type probeServer struct {
 	ownAddrs map[netip.Addr]bool
 	// firstHop: a literal of this machine that the harness classifies as not internal
 	firstHop string
+	// ownInternal: addresses of this machine (other than loopback) in an internal class
+	ownInternal []netip.Addr
+	// log of accepted connections since the last beginWindow (see c38_dns_test.go)
+	logMu sync.Mutex
+	log   []acceptRec
+}
+
+func (p *probeServer) logAccept(c net.Conn) {
+	p.logMu.Lock()
+	if len(p.log) > 8192 { // no window ever holds that many: keep the tail only
+		p.log = append(p.log[:0], p.log[len(p.log)-1024:]...)
+	}
+	p.log = append(p.log, acceptRec{local: c.LocalAddr().String(), remote: c.RemoteAddr().String()})
+	p.logMu.Unlock()
+}
+
+// flagMarker marks the newest logged connection from remote as a marker
+// (barrier) connection of the harness itself.
+func (p *probeServer) flagMarker(remote string) {
+	p.logMu.Lock()
+	for i := len(p.log) - 1; i >= 0; i-- {
+		if p.log[i].remote == remote && !p.log[i].marker {
+			p.log[i].marker = true
+			break
+		}
+	}
+	p.logMu.Unlock()
+}
+
+// beginWindow waits until every connection made so far has been accepted and
+// logged, then empties the log.
+func (p *probeServer) beginWindow() {
+	p.settledAccepts()
+	p.logMu.Lock()
+	p.log = p.log[:0]
+	p.logMu.Unlock()
+}
+
+// endWindow waits until every connection made so far has been accepted and
+// returns the non-marker connections logged since beginWindow.
+func (p *probeServer) endWindow() []acceptRec {
+	p.settledAccepts()
+	p.logMu.Lock()
+	defer p.logMu.Unlock()
+	var out []acceptRec
+	for _, r := range p.log {
+		if !r.marker {
+			out = append(out, r)
+		}
+	}
+	return out
 }
 
 var (
@@ -486,6 +545,7 @@ func getProbeServer() *probeServer {
 		mux := http.NewServeMux()
 		mux.HandleFunc("/mark", func(w http.ResponseWriter, r *http.Request) {
 			p.marks.Add(1)
+			p.flagMarker(r.RemoteAddr)
 			w.Header().Set("Connection", "close")
 			io.WriteString(w, "mark")
 		})
@@ -497,10 +557,15 @@ func getProbeServer() *probeServer {
 		})
 		mux.HandleFunc("/", func(w http.ResponseWriter, r *http.Request) {
 			w.Header().Set("Connection", "close")
-			io.WriteString(w, "ok")
+			// the body names the address this connection was accepted on
+			local := "?"
+			if la, ok := r.Context().Value(http.LocalAddrContextKey).(net.Addr); ok {
+				local = la.String()
+			}
+			io.WriteString(w, "ok local="+local)
 		})
 		srv := &http.Server{Handler: mux}
-		go srv.Serve(countingListener{ln, &p.accepts})
+		go srv.Serve(countingListener{ln, p})
 		p.plain = &http.Client{Transport: &http.Transport{DisableKeepAlives: true, Proxy: nil}}
 		if addrs, err := net.InterfaceAddrs(); err == nil {
 			for _, a := range addrs {
@@ -510,6 +575,9 @@ func getProbeServer() *probeServer {
 						p.ownAddrs[na] = true
 						if p.firstHop == "" && !isInternalClass(classify(na)) {
 							p.firstHop = na.String()
+						}
+						if cl := classify(na); cl == "private" {
+							p.ownInternal = append(p.ownInternal, na)
 						}
 					}
 				}
